@@ -8,8 +8,12 @@ def units(tier):
     e = Entry('h_parse_numeric', defines={'SCAP': scap}, route='B', timeout=1200, mem_gb=6, unwind=scap + 2,
               bounds="every string of the tokenizer's NUMERIC language of length <= %d" % scap)
     u = Unit('parse_numeric', 'C17', 'contracts/C17/parse_numeric.cpp',
-             {'pn.inc': [Piece('symengine/parser/parser.cpp', r'RCP<const Basic> Parser::parse_numeric\(const std::string &expr\)', rules=TOK)]},
-             [e], route='B',
+             {'pn.inc': [Piece('symengine/parser/parser.cpp', r'RCP<const Basic> Parser::parse_numeric\(const std::string &expr\)', rules=TOK),
+                         Piece('symengine/parser/parser.cpp', r'std::tuple<RCP<const Basic>, RCP<const Basic>>\s*Parser::parse_implicit_mul\(const std::string &expr\)',
+                               rules=[R(r'std::tuple<RCP<const Basic>, RCP<const Basic>>', 'RCPPair', n=1, why="std::tuple of two RCPs -> pair record"),
+                                      R('std::make_tuple(', 'make_pair_of(', n=1, why="std::make_tuple -> pair constructor")] + TOK)]},
+             [e, Entry('h_parse_implicit_mul', defines={'SCAP': scap}, route='B', timeout=1200, mem_gb=6, unwind=scap + 2,
+                       bounds="every IMPLICIT_MUL token (NUMERIC followed by an identifier) of length <= %d" % scap)], route='B',
              trusted=["std::string stub (c_str, length, size, find_first_of, operator[]), strtol per ISO C 7.22.1.4, errno, fast_float::from_chars (opaque), integer()/real_double() ghost constructors",
                       "the NUMERIC token language is transcribed by hand from tokenizer.re into the acceptor is_numeric_token (the re2c DFA itself is out of CBMC's reach, DESIGN §2.5)"],
              assumptions=["only the numeric-literal clause of C17 is covered: precedence/associativity, implicit multiplication and function-name tables live in bison's LALR tables and std::map<std::string, std::function> (not under contract)",
